@@ -347,3 +347,53 @@ def override_compat(chk, repo, rule, rels=None, minimum=1):
                                     d.name, name, owner.name, name),
                            found=why)
     chk.need(rule, n, minimum, 'self-calls resolved against overrides')
+
+
+def reviewed_audit(chk, repo, rule='SWEEP.reviewed'):
+    """Every function of the package against its reviewed text (decision
+    tables over path summaries): how many are textually the same, how many
+    were proved the same function and analysed through the reviewed text,
+    which differ, which are new.  Information only."""
+    import textwrap
+    from . import reviewed
+    store = reviewed.store()
+    n = same = equiv = 0
+    differ, new, unmod = [], [], []
+    seen = set()
+    for rel, fn in repo.functions():
+        q = getattr(fn, '_qual', fn.name)
+        k = '%s::%s' % (rel, q)
+        if k in seen:
+            continue
+        seen.add(k)
+        n += 1
+        ent = store.get(k)
+        if ent is None:
+            new.append(k)
+            continue
+        try:
+            ref = ast.parse(textwrap.dedent(ent['source'])).body[0]
+            ref.decorator_list = fn.decorator_list
+            from .source import dump_code
+            if dump_code(ref) == dump_code(fn):
+                same += 1
+                continue
+            ok, oa, ob = reviewed.compare(fn, rel, q)
+        except Exception as exc:        # Unmodelled and the like
+            unmod.append('%s (%s)' % (k, type(exc).__name__))
+            continue
+        if ok:
+            equiv += 1
+        else:
+            differ.append(k)
+    gone = sorted(k for k in store if k not in seen)
+    chk.extra['reviewed_audit'] = {
+        'functions': n, 'textually_as_reviewed': same,
+        'equivalent_in_normal_form': equiv,
+        'analysed_through_reviewed_text': len(getattr(repo, 'canonicalised',
+                                                       [])),
+        'different': differ[:40], 'new': new[:40], 'gone': gone[:40],
+        'not_compared': unmod[:20]}
+    chk.info('reviewed audit: %d functions, %d as reviewed, %d equivalent, '
+             '%d different, %d new, %d gone' % (n, same, equiv, len(differ),
+                                                len(new), len(gone)))
